@@ -166,6 +166,39 @@ def module_defs(m, name):
             isinstance(getattr(n, '_parent', None), (ast.Module, ast.If))]
 
 
+def check_recursive_tails(run, rel, name, alts):
+    """Y-R5.  Backend alternatives of a divide-and-conquer routine differ in their direct (small size)
+    path - the backend's own primitive - but share the recursive tail that splits the problem.  The
+    statements after the last top-level `if <size test>: return <direct result>` must be the same in all
+    alternatives (modulo MPZ(...) conversions): a repair or a change applied to one backend only makes the
+    results differ between backends exactly for the large inputs that tests do not reach."""
+    import re
+    tails = []
+    for label, d in alts:
+        body = [st for st in d.body if not (isinstance(st, ast.Expr) and isinstance(st.value, ast.Constant))]
+        cut = None
+        for i, st in enumerate(body):
+            if isinstance(st, ast.If) and len(st.body) == 1 and isinstance(st.body[0], ast.Return) and \
+                    not any(isinstance(c, ast.Call) and norm(c.func) == name for c in ast.walk(st.body[0])) and \
+                    not st.orelse:
+                cut = i
+        rec = any(isinstance(c, ast.Call) and norm(c.func) == name for st in body[(cut or 0) + 1:] for c in ast.walk(st))
+        if cut is None or not rec:
+            return
+        tails.append((label, d, [re.sub(r'MPZ\(([^()]*)\)', r'\1', norm(st, 400)) for st in body[cut + 1:]]))
+    if len(tails) < 2:
+        return
+    ref = tails[0]
+    for label, d, t in tails[1:]:
+        if t == ref[2]:
+            run.ok('Y-R5', '%s: %s and %s share the recursive tail (%d statements)' % (name, ref[1].name, d.name, len(t)))
+        else:
+            diff = [x for x in t if x not in ref[2]] + [x for x in ref[2] if x not in t]
+            run.fail(F('Y-R5', rel, d.name, diff[0] if diff else 'def %s' % d.name,
+                       'the recursive tail of %s differs from that of %s: beyond the direct-path size the two '
+                       'backends split the problem differently' % (d.name, ref[1].name), line=d.lineno))
+
+
 def check_forks(run, ix):
     forks = discover_forks(ix)
     names = set()
@@ -194,6 +227,8 @@ def check_forks(run, ix):
                    isinstance(getattr(d, '_parent', None), ast.Module)]
             for d in pre:
                 alts.append(('default', d))
+            if len(alts) >= 2:
+                check_recursive_tails(run, rel, name, alts)
             if len(alts) >= 2:
                 ref_label, ref = alts[0]
                 for label, d in alts[1:]:
@@ -497,6 +532,7 @@ def run(run, ix, tier):
     run.rule('Y-R2', floor=8)
     run.rule('Y-R3', floor=12)
     run.rule('Y-R4', floor=8)
+    run.rule('Y-R5', floor=1, desc='backend alternatives share their recursive tail')
     n = check_forks(run, ix)
     check_kernel_siblings(run, ix)
     check_tables(run, ix)
